@@ -42,56 +42,11 @@ Proof.
     rewrite Nat2Z.id. rewrite skipn_app, skipn_all, Nat.sub_diag. cbn [skipn app]. apply firstn_all.
 Qed.
 
-(* the repaired split restores the three roles for ALL role sizes, empty ones included *)
-Theorem rxn_split_fixed_correct {A} (rs ags ps : list A) :
-  rxn_split true (rs ++ ags ++ ps) (Z.of_nat (length rs)) (Z.of_nat (length ags)) (Z.of_nat (length ps)) = (rs, ags, ps).
+(* the split by counts restores the three roles for ALL role sizes, empty ones included *)
+Theorem rxn_split_correct {A} (rs ags ps : list A) :
+  rxn_split (rs ++ ags ++ ps) (Z.of_nat (length rs)) (Z.of_nat (length ags)) (Z.of_nat (length ps)) = (rs, ags, ps).
 Proof.
   unfold rxn_split. rewrite py_slice_prefix, py_slice_middle.
   replace (Z.of_nat (length rs) + Z.of_nat (length ags)) with (Z.of_nat (length (rs ++ ags))) by (rewrite app_length; lia).
   rewrite (app_assoc rs ags ps). rewrite py_slice_suffix. reflexivity.
-Qed.
-
-(* the original split (molecules[reactants:-products], molecules[-products:]) is wrong exactly when products = 0 *)
-Theorem rxn_split_orig_refuted :
-  rxn_split false [10; 20] 1 1 0 = ([10], [], [10; 20]) /\ rxn_split true [10; 20] 1 1 0 = ([10], [20], []).
-Proof. vm_compute. split; reflexivity. Qed.
-
-Lemma py_slice_neg_suffix {A} (x y : list A) : y <> [] ->
-  py_slice (x ++ y) (- Z.of_nat (length y)) (Z.of_nat (length (x ++ y))) = y.
-Proof.
-  intros Hy. unfold py_slice. rewrite !app_length.
-  assert (0 < Z.of_nat (length y)) by (destruct y; [contradiction | cbn [length]; lia]).
-  destruct (- Z.of_nat (length y) <? 0) eqn:E0; [|lia].
-  destruct (Z.of_nat (length x + length y) <? 0) eqn:E1; [lia|].
-  rewrite Z.max_r by lia. rewrite Z.min_l by lia.
-  destruct (Z.of_nat (length x + length y) <=? Z.of_nat (length x + length y) + - Z.of_nat (length y)) eqn:E2; [lia|].
-  replace (Z.of_nat (length x + length y) + - Z.of_nat (length y)) with (Z.of_nat (length x)) by lia.
-  rewrite Nat2Z.id. replace (Z.of_nat (length x + length y) - Z.of_nat (length x)) with (Z.of_nat (length y)) by lia.
-  rewrite Nat2Z.id. rewrite skipn_app, skipn_all, Nat.sub_diag. cbn [skipn app]. apply firstn_all.
-Qed.
-
-Lemma py_slice_neg_middle {A} (x y z : list A) : z <> [] ->
-  py_slice (x ++ y ++ z) (Z.of_nat (length x)) (- Z.of_nat (length z)) = y.
-Proof.
-  intros Hz. unfold py_slice. rewrite !app_length.
-  assert (0 < Z.of_nat (length z)) by (destruct z; [contradiction | cbn [length]; lia]).
-  destruct (Z.of_nat (length x) <? 0) eqn:E0; [lia|].
-  destruct (- Z.of_nat (length z) <? 0) eqn:E1; [|lia].
-  rewrite Z.max_r by lia. rewrite Z.min_l by lia.
-  replace (Z.of_nat (length x + (length y + length z)) + - Z.of_nat (length z)) with (Z.of_nat (length x) + Z.of_nat (length y)) by lia.
-  destruct (Z.of_nat (length x) + Z.of_nat (length y) <=? Z.of_nat (length x)) eqn:E2.
-  - apply Z.leb_le in E2. destruct y; [reflexivity | cbn [length] in E2; lia].
-  - rewrite Nat2Z.id. replace (Z.of_nat (length x) + Z.of_nat (length y) - Z.of_nat (length x)) with (Z.of_nat (length y)) by lia.
-    rewrite Nat2Z.id. rewrite skipn_app, skipn_all, Nat.sub_diag. cbn [skipn app].
-    rewrite firstn_app, Nat.sub_diag, firstn_all. cbn. apply app_nil_r.
-Qed.
-
-Theorem rxn_split_orig_partial {A} (rs ags ps : list A) : ps <> [] ->
-  rxn_split false (rs ++ ags ++ ps) (Z.of_nat (length rs)) (Z.of_nat (length ags)) (Z.of_nat (length ps)) = (rs, ags, ps).
-Proof.
-  intros Hp. unfold rxn_split.
-  assert (0 < Z.of_nat (length ps)) by (destruct ps; [contradiction | cbn [length]; lia]).
-  destruct (Z.of_nat (length ps) =? 0) eqn:E; [lia|].
-  rewrite py_slice_prefix, py_slice_neg_middle by exact Hp.
-  rewrite (app_assoc rs ags ps). rewrite py_slice_neg_suffix by exact Hp. reflexivity.
 Qed.
